@@ -53,6 +53,8 @@ def parseOp (ws : List String) : Option Op :=
   | ["prepend", v, d] => do pure (.prependData (← v.toNat?) (← fromHex d))
   | ["prependb", v, w] => do pure (.prependBuf (← v.toNat?) (← w.toNat?))
   | ["prependsub", v, o, l] => do pure (.prependSub (← v.toNat?) (← o.toNat?) (← l.toNat?))
+  | ["appendsub", v, o, l] => do pure (.appendSub (← v.toNat?) (← o.toNat?) (← l.toNat?))
+  | ["assignsub", v, o, l] => do pure (.assignSub (← v.toNat?) (← o.toNat?) (← l.toNat?))
   | ["append", v, d] => do pure (.appendData (← v.toNat?) (← fromHex d))
   | ["appendb", v, w] => do pure (.appendBuf (← v.toNat?) (← w.toNat?))
   | ["resize", v, n] => do pure (.resize (← v.toNat?) (← n.toNat?))
